@@ -27,17 +27,18 @@ WHAT = {"partial-removal": "a tombstone stored on a part of the shards only is m
 def run(ck):
     thorough = ck.tier == "thorough"
     wops = ("Put", "Bcast", "SetMode", "Evacuate")
-    wit = [dict(scenario="ev-lock-moved", cat="c19s", ops=wops, modes=("rw", "ro"), inflight=1),
-           dict(scenario="ev-partial-removal", cat="c19s", ops=wops, modes=("rw", "ro"), inflight=1, required=False)]
+    qops = ("Put", "Bcast", "SetMode", "EvacuateQ")
+    wit = [dict(scenario="ev-partial-removal", cat="c19s", ops=qops, modes=("rw", "ro"), inflight=1, required=False)]
     if thorough:
-        wit += [dict(scenario="ev-handler", cat="c19s", ops=wops, modes=("rw", "ro"), inflight=1),
+        wit += [dict(scenario="ev-lock-moved", cat="c19s", ops=wops, modes=("rw", "ro"), inflight=1),
+                dict(scenario="ev-handler", cat="c19s", ops=wops, modes=("rw", "ro"), inflight=1),
                 dict(scenario="ev-lock-moved", cat="c19s", ns=3, ops=wops, modes=("rw", "ro"), inflight=1)]
         gens = [dict(ns=ns, cat="c19g", ops=OPS, modes=MODES, genlen=gl, num=num, seed=ck.seed * 100 + ns * 10 + k, inflight=1)
                 for k, (ns, num, gl) in enumerate([(2, 400, 20), (3, 300, 24)])]
         cfgs = ["Engine_c19_quick.cfg", "Engine_c19_quick_strict.cfg", "Engine_c19_thorough.cfg", "Engine_c19_thorough_ec.cfg"]
         ck.setcov("constants", "2 and 3 shards: object + lock + tombstone; 2 shards: object + lock + EC part + its tombstone, put faults, degraded sources; all source subsets, ignoreErrors, fault handler")
     else:
-        gens = [dict(ns=3, cat="c19g", ops=OPS, modes=MODES, genlen=18, num=40, seed=ck.seed * 100 + 30, inflight=1)]
+        gens = [dict(ns=3, cat="c19g", ops=OPS, modes=MODES, genlen=18, num=25, seed=ck.seed * 100 + 30, inflight=1)]
         cfgs = ["Engine_c19_quick.cfg", "Engine_c19_quick_strict.cfg"]
         ck.setcov("constants", "2 shards, object + lock + tombstone, modes rw/ro, all source subsets, ignoreErrors, fault handler")
     scripts, per, hit = eu.run_property(ck, "C19", cfgs, wit, gens, WHAT, procs=4 if not thorough else 6, par=4 if not thorough else 5)
